@@ -26,6 +26,7 @@ fn main() {
         "C10" => c10::run(&ctx),
         "C18" => c18::run(&ctx),
         "repro" => repro::main(),
+        "c18-child" => c18::child_main(&ctx.rest),
         "san" => san::main(&ctx),
         "san-child" => san::child(&ctx.rest),
         other => {
